@@ -210,7 +210,8 @@ class DAETimeSeries:
         The function checks for empty arrays and shows warnings.
         """
 
-        if np.count_nonzero(self.__dict__[array_name]) == 0:
+        # a channel that is not stored has no column; stored data may well be all zeros
+        if self.__dict__[array_name].size == 0:
             logger.error("TimeSeries matrix <%s> contains no element. Check if `[TDS] store_%s = 1`",
                          array_name, array_name)
 
